@@ -13,13 +13,17 @@ Variable F : fieldType.
 Definition cho_solve (m n : nat) (L : 'M[F]_m) (B : 'M[F]_(m, n)) : 'M[F]_(m, n) :=
   invmx (L *m L^T) *m B.
 
-(** scipy.linalg.solve_triangular(L, e, lower=True) solves L y = e. *)
-Definition solve_triangular (m : nat) (L : 'M[F]_m) (e : 'cV[F]_m) : 'cV[F]_m :=
-  invmx L *m e.
+(** scipy.linalg.solve_triangular(L, B, lower=True) solves L Y = B. *)
+Definition solve_triangular (m n : nat) (L : 'M[F]_m) (B : 'M[F]_(m, n)) : 'M[F]_(m, n) :=
+  invmx L *m B.
 
 (** What scipy.linalg.cholesky(S, lower=True) is required to return. *)
 Definition is_lower (m : nat) (L : 'M[F]_m) : Prop :=
   forall i j : 'I_m, (i < j)%N -> L i j = 0.
+(** the factorisation alone: L lower triangular with L L^T = S *)
+Definition cholesky_factor (m : nat) (chol : 'M[F]_m -> 'M[F]_m) (S : 'M[F]_m) : Prop :=
+  is_lower (chol S) /\ chol S *m (chol S)^T = S.
+(** ... of an invertible S (then L is invertible too) *)
 Definition cholesky_spec (m : nat) (chol : 'M[F]_m -> 'M[F]_m) (S : 'M[F]_m) : Prop :=
   is_lower (chol S) /\ chol S *m (chol S)^T = S /\ chol S \in unitmx.
 End Specs.
